@@ -120,6 +120,52 @@ def gen_shape(rng, tier, nmax):
     return shape, axis, ax
 
 
+# ------------------------------------------------------------------ calling disciplines
+VARIANTS = ['plain', 'plain', 'fortran', 'strided', 'reuse']
+
+
+def lay(a, variant):
+    """an array with the values of `a` in the requested memory layout (always a private buffer)"""
+    a = np.asarray(a)
+    if variant == 'fortran' and a.ndim > 1:
+        return np.asfortranarray(a.copy())
+    if variant in ('strided', 'fortran'):
+        big = np.zeros(tuple(2 * s_ + 1 for s_ in a.shape), dtype=a.dtype)
+        v = big[tuple(slice(1, None, 2) for _ in a.shape)]
+        v[...] = a
+        return v
+    return a.copy()
+
+
+def disciplined(f, arrays, variant):
+    """f(*arrays) under a calling discipline.  `reuse`: the function is first called on buffers holding
+    OTHER values, the same buffers are then overwritten in place and the function is called again (an
+    identity-keyed memo would answer with the stale result).  Returns (result, input_mutated)."""
+    arrays = [np.asarray(a) for a in arrays]
+    if variant == 'reuse':
+        bufs = [np.ascontiguousarray(a[..., ::-1] * 3 + 1) if a.dtype.kind in 'fc' else np.ascontiguousarray(a[..., ::-1] + 1) for a in arrays]
+        try:
+            f(*bufs)
+        except Exception:  # noqa
+            pass
+        for b, a in zip(bufs, arrays):
+            b[...] = a
+        args = bufs
+    else:
+        args = [lay(a, variant) for a in arrays]
+    r = f(*args)
+    mutated = any(not np.array_equal(g, a) for g, a in zip(args, arrays))
+    return r, mutated
+
+
+def with_flag(res):
+    """(result, mutated) -> result, or an error string when the call changed its arguments"""
+    if isinstance(res, str):
+        return res
+    r, mutated = res
+    return 'err InputMutated' if mutated else r
+
+
 # ------------------------------------------------------------------ cases
 def cov_call(fn, x, y, axis, al, db, nm, pass_db=True):
     u = U()
@@ -131,17 +177,22 @@ def cov_call(fn, x, y, axis, al, db, nm, pass_db=True):
     return getattr(u, fn)(x, **kw)
 
 
-def mk_cov_case(fn, x, y, axis, al, db, nm):
+def mk_cov_case(fn, x, y, axis, al, db, nm, variant='plain'):
     cplx = bool(np.iscomplexobj(x))
     sh, xd = arr_tok(x)
     line = 'C20 %s %s %d %d %d %d %s %s' % (fn, 'c' if cplx else 'r', axis, al, db, nm, sh, xd)
     if y is not None:
         line += ' ' + arr_tok(y)[1]
-    impl = canon_nd(call(lambda: cov_call(fn, x.copy(), None if y is None else y.copy(), axis, bool(al), bool(db), bool(nm))), cplx)
+    if y is None:
+        f = lambda a: cov_call(fn, a, None, axis, bool(al), bool(db), bool(nm))
+        impl = canon_nd(with_flag(call(lambda: disciplined(f, [x], variant))), cplx)
+    else:
+        f = lambda a, b: cov_call(fn, a, b, axis, bool(al), bool(db), bool(nm))
+        impl = canon_nd(with_flag(call(lambda: disciplined(f, [x, y], variant))), cplx)
     N = x.shape[axis]
     mag = float(np.abs(x).max()) * float(np.abs(y if y is not None else x).max()) * N
     meta = {'op': 'cov', 'fn': fn, 'x': arr_tok(x), 'y': None if y is None else arr_tok(y), 'cplx': cplx,
-            'axis': axis, 'al': al, 'db': db, 'nm': nm}
+            'axis': axis, 'al': al, 'db': db, 'nm': nm, 'variant': variant}
     nt = bool(np.ptp(np.abs(x)) > 0)
     return Case(line, impl, 'cov/%s/%s' % (fn, 'complex' if cplx else 'real'), cmp=cmp_nd(cplx, 1e-12 * mag), meta=meta, nontrivial=nt)
 
@@ -151,39 +202,65 @@ def seq_gen(rng, n, k, canonical=False):
     return [rng.choice(labels) for _ in range(n)]
 
 
-def ent_impl(fn, seqs, lag=None):
+def ent_impl(fn, seqs, lag=None, variant='plain'):
     import importlib
     E = importlib.import_module('nitime.algorithms.entropy')
     xs = [np.array(s) for s in seqs]
-    if fn == 'entropy':
-        v = E.entropy(*xs)
-    elif fn == 'condent':
-        v = E.conditional_entropy(*xs)
-    elif fn == 'mi':
-        v = E.mutual_information(*xs)
-    elif fn == 'ecc':
-        with np.errstate(all='ignore'):
-            v = E.entropy_cc(*xs)
-    else:
-        v = E.transfer_entropy(xs[0], xs[1], lag=lag)
+
+    def f(*xs):
+        if fn == 'entropy':
+            return E.entropy(*xs)
+        if fn == 'condent':
+            return E.conditional_entropy(*xs)
+        if fn == 'mi':
+            return E.mutual_information(*xs)
+        if fn == 'ecc':
+            with np.errstate(all='ignore'):
+                return E.entropy_cc(*xs)
+        return E.transfer_entropy(xs[0], xs[1], lag=lag)
+    v, mutated = disciplined(f, xs, variant)
+    if mutated:
+        return 'err InputMutated'
     return 'ok ' + flist([float(v)])
 
 
-def mk_ent_case(fn, seqs, lag=None):
+def mk_ent_case(fn, seqs, lag=None, variant='plain'):
     line = 'C20 %s %s%s' % (fn if fn != 'te' else 'te', ('%d ' % lag) if fn == 'te' else '', ' '.join(ilist(s) for s in seqs))
-    impl = call(lambda: ent_impl(fn, seqs, lag))
-    meta = {'op': 'ent', 'fn': fn, 'seqs': [list(s) for s in seqs], 'lag': lag}
+    impl = call(lambda: ent_impl(fn, seqs, lag, variant))
+    meta = {'op': 'ent', 'fn': fn, 'seqs': [list(s) for s in seqs], 'lag': lag, 'variant': variant}
     return Case(line, impl, 'entropy/' + fn + ('%d' % len(seqs) if fn == 'entropy' else ''), cmp=cmp_scalar(1e-9), meta=meta,
                 nontrivial=len(set(seqs[0])) > 1)
 
 
-def xcorr_impl(which, data):
+ATTR = {'raw': 'xcorr', 'norm': 'xcorr_norm', 'cc': 'corrcoef'}
+
+
+def analyzer_reads(data, order):
+    """read the outputs named in `order` one after the other on ONE CorrelationAnalyzer; returns
+    {name: values held at the END by the object handed out at read time}, problems"""
     import nitime.timeseries as ts
     import nitime.analysis as nta
-    T = ts.TimeSeries(np.array(data), sampling_interval=1)
+    data = np.array(data, dtype=float)
+    T = ts.TimeSeries(data.copy(), sampling_interval=1)
     C = nta.CorrelationAnalyzer(T)
-    r = C.xcorr if which == 'raw' else C.xcorr_norm
-    return 'ok ' + flist(np.asarray(r.data).reshape(-1))
+    handed, at_read, problems = {}, {}, []
+
+    def vals(r):
+        return np.array(r.data if hasattr(r, 'data') and not isinstance(r, np.ndarray) else r, dtype=float).reshape(-1)
+    for name in order:
+        r = getattr(C, ATTR[name])
+        handed[name] = r
+        at_read[name] = vals(r).copy()
+        if not np.array_equal(np.asarray(T.data), data):
+            problems.append('input-mutated-by-' + name)
+    end = {}
+    for name in order:
+        end[name] = vals(handed[name])
+        if not np.array_equal(end[name], at_read[name], equal_nan=True):
+            problems.append('earlier-result-changed:' + name)
+        if not np.array_equal(vals(getattr(C, ATTR[name])), end[name], equal_nan=True):
+            problems.append('reread-differs:' + name)
+    return end, problems
 
 
 def cmp_xcorr(atol):
@@ -195,13 +272,40 @@ def cmp_xcorr(atol):
     return f
 
 
-def mk_xcorr_case(which, data):
+def mk_xcorr_cases(order, data):
+    """one Case per output read in `order` (a tuple of 'raw' | 'norm' | 'cc') on one analyzer object"""
     data = np.asarray(data, dtype=float)
-    line = 'C20 xcorr %s %d %s' % (which, data.shape[1], flist(data.reshape(-1)))
-    impl = call(lambda: xcorr_impl(which, data))
-    meta = {'op': 'xcorr', 'which': which, 'data': data.tolist()}
-    return Case(line, impl, 'analyzer/' + ('xcorr' if which == 'raw' else 'xcorr_norm'),
-                cmp=cmp_xcorr(1e-12 * float(np.abs(data).max()) ** 2 * data.shape[1]), meta=meta)
+    res = call(lambda: analyzer_reads(data, order))
+    out = []
+    seq = '-'.join(order)
+    for name in order:
+        if len(order) > 1:     # the model's analyzer object, same read sequence
+            line = 'C20 seq %s %d %d %s' % (','.join(order), list(order).index(name), data.shape[1], flist(data.reshape(-1)))
+        elif name == 'cc':
+            line = 'C20 corrcoef %d %s' % (data.shape[1], flist(data.reshape(-1)))
+        else:
+            line = 'C20 xcorr %s %d %s' % (name, data.shape[1], flist(data.reshape(-1)))
+        if isinstance(res, str):
+            impl, problems = res, []
+        else:
+            impl, problems = 'ok ' + flist(res[0][name]), res[1]
+        base = 'analyzer/' + ATTR[name]
+        clause = base if len(order) == 1 else 'analyzer/sequence/%s/%s' % (seq, ATTR[name])
+        meta = {'op': 'xcorr', 'which': name, 'order': list(order), 'data': data.tolist(), 'base': base,
+                'problems': [p_ for p_ in problems if p_.startswith('input') or p_.endswith(':' + name)]}
+        out.append(Case(line, impl, clause, cmp=cmp_xcorr(1e-12 * float(np.abs(data).max()) ** 2 * data.shape[1]), meta=meta))
+    return out
+
+
+def norm_impl(fn, x, axis, variant):
+    f = U().zscore if fn == 'zscore' else U().percent_change
+    return canon_nd(with_flag(call(lambda: disciplined(lambda a: f(a, axis), [x], variant))))
+
+
+def seedcc_impl(seedv, targ, one_d, variant):
+    f = lambda s_, t_: np.atleast_1d(TSA().seed_corrcoef(s_, t_))
+    r = with_flag(call(lambda: disciplined(f, [seedv, targ[0] if one_d else targ], variant)))
+    return r if isinstance(r, str) else 'ok ' + flist(r)
 
 
 def cases(rng, tier, seed):
@@ -222,7 +326,15 @@ def cases(rng, tier, seed):
             x = x.astype(complex)
             y = y.astype(complex)
         al, db, nm = rng.randint(0, 1), rng.randint(0, 1), rng.randint(0, 1)
-        out.append(mk_cov_case(fn, x, y, axis, al, db, nm))
+        out.append(mk_cov_case(fn, x, y, axis, al, db, nm, rng.choice(VARIANTS)))
+    # every lane length 2..70 (FFT padding parities, odd fast lengths), 1-d, in every run
+    fns = ['crosscov', 'crosscorr', 'autocov', 'autocorr']
+    for N in range(2, 71):
+        fn = fns[(N + seed) % 4]
+        cplx = (N // 4 + seed) % 2 == 1
+        x = gen_array(nr, [N], cplx, 'randn')
+        y = gen_array(nr, [N], cplx, 'offset') if fn.startswith('cross') else None
+        out.append(mk_cov_case(fn, x, y, -1, rng.randint(0, 1), rng.randint(0, 1), rng.randint(0, 1), VARIANTS[1 + N % 4]))
     for _ in range(6 * k):   # unequal lengths are refused
         a, b = nr.randn(rng.randint(2, 6)), nr.randn(rng.randint(7, 9))
         impl = call(lambda: 'ok ' + flist(U().crosscov(a, b)))
@@ -240,10 +352,10 @@ def cases(rng, tier, seed):
             skipped += 1
             continue
         sh, xd = arr_tok(x)
-        f = U().zscore if fn == 'zscore' else U().percent_change
-        impl = canon_nd(call(lambda: f(x.copy(), axis)))
+        variant = rng.choice(VARIANTS)
+        impl = norm_impl(fn, x, axis, variant)
         out.append(Case('C20 %s %d %s %s' % (fn, axis, sh, xd), impl, 'norm/' + fn, cmp=cmp_nd(False, 1e-9),
-                        meta={'op': fn, 'x': arr_tok(x), 'axis': axis}))
+                        meta={'op': fn, 'x': arr_tok(x), 'axis': axis, 'variant': variant}))
     # --- seed_corrcoef
     for _ in range(40 * k):
         n = rng.randint(3, min(nmax, 40))
@@ -252,14 +364,22 @@ def cases(rng, tier, seed):
         if rng.random() < 0.3:
             targ[0] = seedv * rng.choice([2.0, -0.5]) + 1.0     # perfectly (anti)correlated row
         one_d = nt == 1 and rng.random() < 0.5
-        impl = call(lambda: 'ok ' + flist(np.atleast_1d(TSA().seed_corrcoef(seedv.copy(), targ[0].copy() if one_d else targ.copy()))))
+        variant = rng.choice(VARIANTS)
+        impl = seedcc_impl(seedv, targ, one_d, variant)
         out.append(Case('C20 seedcc %d %s %s' % (n, flist(seedv), flist(targ.reshape(-1))), impl, 'seed_corrcoef',
-                        cmp=cmp_scalar(1e-12), meta={'op': 'seedcc', 'seed': seedv.tolist(), 'targ': targ.tolist(), 'one_d': one_d}))
+                        cmp=cmp_scalar(1e-12), meta={'op': 'seedcc', 'seed': seedv.tolist(), 'targ': targ.tolist(), 'one_d': one_d, 'variant': variant}))
     # --- analyzer xcorr pair fill
     for _ in range(24 * k):
         nch, n = rng.randint(2, 4), rng.choice([2, 3, 4, 5, 8, rng.randint(2, 24)])
         data = nr.rand(nch, n) + 0.5
-        out.append(mk_xcorr_case(rng.choice(['raw', 'norm']), data))
+        out += mk_xcorr_cases((rng.choice(['raw', 'norm', 'cc']),), data)
+    # --- every read order of the analyzer's outputs on ONE object (all ordered pairs and all permutations)
+    import itertools
+    orders = [o for r_ in (2, 3) for o in itertools.permutations(['raw', 'norm', 'cc'], r_)]
+    for rep in range(k):
+        for order in orders:
+            nch, n = rng.randint(2, 3), rng.choice([2, 3, 4, 5, 7, rng.randint(2, 16)])
+            out += mk_xcorr_cases(order, nr.rand(nch, n) + 0.5)
     # --- correlation_spectrum
     for _ in range(30 * k):
         n = rng.randint(3, min(nmax, 48))
@@ -288,7 +408,7 @@ def cases(rng, tier, seed):
             seqs[1] = [(v * 7) % 3 for v in seqs[0]] if rng.random() < 0.5 else list(seqs[0])
         if fn == 'ecc' and len(set(seqs[0])) == 1 and len(set(seqs[1])) == 1:
             seqs[0][0] += 1    # 0/0 is not interesting
-        out.append(mk_ent_case(fn, seqs, rng.randint(1, 5) if fn == 'te' else None))
+        out.append(mk_ent_case(fn, seqs, rng.randint(1, 5) if fn == 'te' else None, rng.choice(VARIANTS)))
     if skipped:
         out.append(Case('C20 nop', 'bad-op', 'monitor/skipped-degenerate-%d' % skipped, nontrivial=False))
     return out
@@ -325,8 +445,10 @@ def un_tok(t, cplx):
 
 def fail(c, sym, what, extra=None):
     m = dict(c.meta)
+    if m.get('variant', 'plain') != 'plain':
+        what += ' [calling discipline: %s]' % m['variant']
     return Failure('%s/%s' % (c.clause, sym), '%s: %s [op: %s]' % (c.clause, what, c.line[:160]),
-                   {'clause': c.clause, 'meta': m, 'line': c.line}, case=c)
+                   {'clause': c.clause, 'meta': m, 'line': c.line, 'key': '%s/%s' % (c.clause, sym)}, case=c)
 
 
 def H_counter(*seqs):
@@ -342,6 +464,8 @@ def check_case(c, rng=None):
     op = m['op']
     if op == 'len':
         return None if c.impl == 'err ValueError' else fail(c, 'accepted', 'unequal lengths accepted')
+    if c.impl == 'err InputMutated':
+        return fail(c, 'input-mutated', 'the call changed its argument array')
     if op == 'cov':
         cplx = m['cplx']
         x = un_tok(m['x'], cplx)
@@ -389,6 +513,12 @@ def check_case(c, rng=None):
             return fail(c, 'shape', 'shape changed')
         ax = m['axis'] % x.ndim
         g, _ = lanes(got, ax)
+        gx, _ = lanes(x, ax)
+        for lx, lg in zip(gx, g):      # the definition, lane by lane, on THIS input
+            mu = lx.sum() / len(lx)
+            want = (lx - mu) / math.sqrt(((lx - mu) ** 2).sum() / len(lx)) if op == 'zscore' else (lx / mu - 1) * 100
+            if not close_c(list(lg), list(want), 1e-9, 1e-9):
+                return fail(c, 'value', 'lane is not %s of the input lane' % ('(x - mean)/std' if op == 'zscore' else '(x/mean - 1)*100'))
         for lg in g:
             scale = max(1.0, float(np.abs(lg).max()))
             if abs(lg.mean()) > 1e-9 * scale:
@@ -410,11 +540,20 @@ def check_case(c, rng=None):
     if op == 'xcorr':
         if not c.impl.startswith('ok '):
             return fail(c, 'raises', 'call failed: ' + c.impl[:60])
+        for p_ in m.get('problems', []):
+            return fail(c, p_.split(':')[0], 'reading %s on one analyzer: %s' % ('-'.join(m['order']), p_))
         d = np.array(m['data'])
         nch, N = d.shape
+        if m['which'] == 'cc':
+            got = np.array(parse_flist(c.impl[3:]))
+            want = np.corrcoef(d).reshape(-1)
+            if len(got) != len(want) or np.abs(got - want).max() > 1e-9:
+                return fail(c, 'value', 'corrcoef is not the Pearson matrix')
+            return None
         got = np.array(parse_flist(c.impl[3:])).reshape(nch, nch, 2 * N - 1)
         tol = 1e-9 * float(np.abs(got).max())
         norm = m['which'] == 'norm'
+        base = m.get('base', c.clause)
         cc = np.corrcoef(d)
         for i in range(nch):
             for j in range(i, nch):
@@ -430,8 +569,11 @@ def check_case(c, rng=None):
         for i in range(nch):
             for j in range(i + 1, nch):
                 if np.abs(got[j, i] - got[i, j][::-1]).max() > tol:
-                    return fail(c, 'pair-fill-not-lag-reversed', 'entry (%d,%d) is not the lag-reversed entry (%d,%d)%s' % (
+                    f_ = fail(c, 'pair-fill-not-lag-reversed', 'entry (%d,%d) is not the lag-reversed entry (%d,%d)%s' % (
                         j, i, i, j, ' (it is a copy)' if np.abs(got[j, i] - got[i, j]).max() <= tol else ''))
+                    f_.key = base + '/pair-fill-not-lag-reversed'     # the recorded finding, whatever the read order
+                    f_.replay['key'] = f_.key
+                    return f_
         return None
     if op == 'corrspec':
         if not c.impl.startswith('ok '):
@@ -533,24 +675,28 @@ def replay(d):
     if op == 'cov':
         x = un_tok(m['x'], m['cplx'])
         y = un_tok(m['y'], m['cplx']) if m['y'] else None
-        c = mk_cov_case(m['fn'], x, y, m['axis'], m['al'], m['db'], m['nm'])
+        c = mk_cov_case(m['fn'], x, y, m['axis'], m['al'], m['db'], m['nm'], m.get('variant', 'plain'))
     elif op == 'ent':
-        c = mk_ent_case(m['fn'], m['seqs'], m['lag'])
+        c = mk_ent_case(m['fn'], m['seqs'], m['lag'], m.get('variant', 'plain'))
     elif op == 'xcorr':
-        c = mk_xcorr_case(m['which'], m['data'])
+        c = [q for q in mk_xcorr_cases(tuple(m.get('order', [m['which']])), m['data']) if q.meta['which'] == m['which']][0]
     elif op == 'len':
         a, b = np.array(m['a']), np.array(m['b'])
         c = Case(d['line'], call(lambda: 'ok ' + flist(U().crosscov(a, b))), d['clause'], meta=m)
     elif op in ('zscore', 'pchange'):
         x = un_tok(m['x'], False)
-        f = U().zscore if op == 'zscore' else U().percent_change
-        c = Case(d['line'], canon_nd(call(lambda: f(x.copy(), m['axis']))), d['clause'], meta=m)
+        c = Case(d['line'], norm_impl(op, x, m['axis'], m.get('variant', 'plain')), d['clause'], meta=m)
     elif op == 'seedcc':
         s, t = np.array(m['seed']), np.array(m['targ'])
-        c = Case(d['line'], call(lambda: 'ok ' + flist(np.atleast_1d(TSA().seed_corrcoef(s, t[0] if m['one_d'] else t)))), d['clause'], meta=m)
+        c = Case(d['line'], seedcc_impl(s, t, m['one_d'], m.get('variant', 'plain')), d['clause'], meta=m)
     elif op == 'corrspec':
         a, b = np.array(m['a']), np.array(m['b'])
         c = Case(d['line'], call(lambda: 'ok ' + flist(TSA().correlation_spectrum(a, b, norm=bool(m['nm']))[1])), d['clause'], meta=m)
     else:
         return None
-    return check_case(c)
+    f = check_case(c)
+    if f is not None and d.get('key') and f.key != d['key']:
+        import common
+        if common.match_known(f.key, common.load_findings(PID)):
+            return None      # a DIFFERENT failure that is a recorded finding does not make this replay fail
+    return f
